@@ -66,17 +66,20 @@ Proof.
 Qed.
 Print Assumptions C19_image_shape_is_the_box_frame.
 
-(* RandomCropNearBBox: each face moves by at most round(extent * its OWN axis fraction); the minimum is
-   clamped at 0; image and boxes use the same window clamped to the frame *)
+(* RandomCropNearBBox: each face of a valid reference box moves by at most round(extent * its OWN axis fraction);
+   the minimum is clamped at 0; the window is never empty and always keeps a voxel of the reference box (so it
+   is non-empty after clamping to any frame that contains the reference box); image and boxes use the same
+   window clamped to the frame *)
 Theorem C19_near_bbox_faces : forall fh fw fd bx1 by1 bz1 bx2 by2 bz2 d1 d2 d3 d4 d5 d6 x1 y1 z1 x2 y2 z2,
+  (0 <= bx1 < bx2)%Z -> (0 <= by1 < by2)%Z -> (0 <= bz1 < bz2)%Z ->
   RandomCropNearBBoxS_get_params_dependent_on_targets (fh, fw, fd) (bx1, by1, bz1, bx2, by2, bz2) d1 d2 d3 d4 d5 d6
     = Ok (x1, y1, z1, x2, y2, z2) ->
   let sh := py_round ((inject_Z by2 - inject_Z by1) * fh) in
   let sw := py_round ((inject_Z bx2 - inject_Z bx1) * fw) in
   let sd := py_round ((inject_Z bz2 - inject_Z bz1) * fd) in
-  (Z.max 0 (bx1 - sw) <= x1 <= Z.max 0 (bx1 + sw) /\ bx2 - sw <= x2 <= bx2 + sw /\
-   Z.max 0 (by1 - sh) <= y1 <= Z.max 0 (by1 + sh) /\ by2 - sh <= y2 <= by2 + sh /\
-   Z.max 0 (bz1 - sd) <= z1 <= Z.max 0 (bz1 + sd) /\ bz2 - sd <= z2 <= bz2 + sd)%Z.
+  (Z.max 0 (bx1 - sw) <= x1 <= Z.max 0 (bx1 + sw) /\ bx2 - sw <= x2 <= bx2 + sw /\ x1 < x2 /\ x1 < bx2)%Z /\
+  (Z.max 0 (by1 - sh) <= y1 <= Z.max 0 (by1 + sh) /\ by2 - sh <= y2 <= by2 + sh /\ y1 < y2 /\ y1 < by2)%Z /\
+  (Z.max 0 (bz1 - sd) <= z1 <= Z.max 0 (bz1 + sd) /\ bz2 - sd <= z2 <= bz2 + sd /\ z1 < z2 /\ z1 < bz2)%Z.
 Proof. exact near_bbox_faces. Qed.
 Print Assumptions C19_near_bbox_faces.
 
